@@ -53,6 +53,9 @@
 
 static const char *g_target = "?";
 static volatile unsigned g_sink;
+static unsigned long g_parse_ok, g_runs;
+static int g_verbose;
+#define PARSED() (g_parse_ok++)
 
 static void wfail(const char *what)
 {
@@ -537,6 +540,7 @@ static int x509_flags(unsigned char *in, size_t n, int flags)
     int32 rc = psX509ParseCert(NULL, in, (uint32) n, &c, flags);
     if (rc >= 0 && c)
     {
+        PARSED();
         if (!(flags & CERT_ALLOW_BUNDLE_PARTIAL_PARSE))
         {
             CK((size_t) rc <= n, "x509-consumed-more-than-input");
@@ -560,6 +564,7 @@ static int certdata_flags(unsigned char *in, size_t n, int flags)
     psRes_t rc = psX509ParseCertData(NULL, in, n, &c, flags);
     if (rc >= 0 && c)
     {
+        PARSED();
         walk_cert_chain(c);
     }
     psX509FreeCert(c);
@@ -582,6 +587,7 @@ static int t_pemcertlist(unsigned char *in, size_t n)
     unsigned cnt = 0;
     if (psPemCertBufToList(NULL, in, n, &l) >= 0)
     {
+        PARSED();
         for (e = l; e; e = e->next)
         {
             CK(++cnt <= 70000, "pemlist-unbounded");
@@ -603,6 +609,7 @@ static int t_crl(unsigned char *in, size_t n)
     psX509Crl_t *crl = NULL;
     if (psX509ParseCRL(NULL, &crl, in, (int32) n) >= 0 && crl)
     {
+        PARSED();
         walk_crl(crl);
         psX509FreeCRL(crl);
     }
@@ -622,6 +629,7 @@ static int t_ocsp(unsigned char *in, size_t n)
     rc = psOcspParseResponse(NULL, (int32_t) n, &cp, in + n, &r);
     if (rc >= 0)
     {
+        PARSED();
         /* every member points into the response buffer */
         CK(in_buf(in, n, cp, 0), "ocsp-cursor-outside-input");
         if (r.responseType)
@@ -702,6 +710,7 @@ static int pkcs8_pw(unsigned char *in, size_t n, char *pw)
     memset(&k, 0, sizeof k);
     if (psPkcs8ParsePrivBin(NULL, in, n, pw, &k) >= 0)
     {
+        PARSED();
         walk_pubkey(&k);
         psClearPubKey(&k);
     }
@@ -725,6 +734,7 @@ static int t_pkcs12(unsigned char *in, size_t n)
     rc = psPkcs12ParseMem(NULL, &c, &k, in, (int32) n, 0, pw, 6, pw, 6);
     if (rc >= 0)
     {
+        PARSED();
         walk_cert_chain(c);
         walk_pubkey(&k);
     }
@@ -745,6 +755,7 @@ static int t_rsa_priv(unsigned char *in, size_t n)
     }
     if (psRsaParsePkcs1PrivKey(NULL, in, (psSize_t) n, &k) >= 0)
     {
+        PARSED();
         walk_rsa(&k);
         psRsaClearKey(&k);
     }
@@ -756,6 +767,7 @@ static int t_rsa_pubmem(unsigned char *in, size_t n)
     memset(&k, 0, sizeof k);
     if (psRsaParsePubKeyMem(NULL, in, n, NULL, &k) >= 0)
     {
+        PARSED();
         walk_rsa(&k);
     }
     psRsaClearKey(&k);
@@ -773,6 +785,7 @@ static int t_ecc_priv(unsigned char *in, size_t n)
     }
     if (psEccParsePrivKey(NULL, in, (psSize_t) n, &k, NULL) >= 0)
     {
+        PARSED();
         walk_ecc(&k);
         psEccClearKey(&k);
     }
@@ -787,7 +800,10 @@ static int t_ed25519_priv(unsigned char *in, size_t n)
     {
         return 0;
     }
-    (void) psEd25519ParsePrivKey(NULL, in, (psSize_t) n, &k);
+    if (psEd25519ParsePrivKey(NULL, in, (psSize_t) n, &k) >= 0)
+    {
+        PARSED();
+    }
     return 0;
 }
 static int t_ed25519_pub(unsigned char *in, size_t n)
@@ -802,6 +818,7 @@ static int t_ed25519_pub(unsigned char *in, size_t n)
     }
     if (psEd25519ParsePubKey(NULL, &p, (psSize_t) n, &k, hash) >= 0)
     {
+        PARSED();
         CK(in_buf(in, n, p, 0), "ed25519-cursor-outside-input");
     }
     return 0;
@@ -815,6 +832,7 @@ static int t_privkey_unknown(unsigned char *in, size_t n)
     memset(&k, 0, sizeof k);
     if (psParseUnknownPrivKeyMem(NULL, in, (int32) n, NULL, &k) >= 0)
     {
+        PARSED();
         walk_pubkey(&k);
         psClearPubKey(&k);
     }
@@ -826,6 +844,7 @@ static int t_pubkey_unknown(unsigned char *in, size_t n)
     memset(&k, 0, sizeof k);
     if (psParseUnknownPubKeyMem(NULL, in, (int32) n, NULL, &k) >= 0)
     {
+        PARSED();
         walk_pubkey(&k);
         psClearPubKey(&k);
     }
@@ -839,6 +858,7 @@ static int t_spki(unsigned char *in, size_t n)
     const unsigned char *bits = NULL;
     if (psParseSubjectPublicKeyInfo(NULL, in, n, &alg, &params, &plen, &bits) >= 0)
     {
+        PARSED();
         CK(in_buf(in, n, bits, 1), "spki-bitstring-outside-input");
         if (params)
         {
@@ -863,6 +883,7 @@ static int t_rsa_pub(unsigned char *in, size_t n)
     }
     if (psRsaParseAsnPubKey(NULL, &p, (psSize_t) n, &k, h) >= 0)
     {
+        PARSED();
         CK(in_buf(in, n, p, 0), "rsa-pub-cursor-outside-input");
         walk_rsa(&k);
     }
@@ -883,6 +904,7 @@ static int t_ecc_pub(unsigned char *in, size_t n)
     }
     if (getEcPubKey(NULL, &p, (psSize_t) n, &k, h) >= 0)
     {
+        PARSED();
         CK(in_buf(in, n, p, 0), "ecc-pub-cursor-outside-input");
         walk_ecc(&k);
         psEccClearKey(&k);
@@ -901,6 +923,7 @@ static int t_dhparams(unsigned char *in, size_t n)
     }
     if (psPkcs3ParseDhParamBin(NULL, in, (psSize_t) n, &p) >= 0)
     {
+        PARSED();
         walk_pstm(&p.p, "dh-bignum");
         walk_pstm(&p.g, "dh-bignum");
         CK(p.size == pstm_unsigned_bin_size(&p.p), "dh-size-vs-prime");
@@ -917,6 +940,7 @@ static int pem_pw(unsigned char *in, size_t n, const char *pw)
     psSizeL_t ol = 0;
     if (psPemDecode(NULL, in, n, pw, &out, &ol) >= 0 && out)
     {
+        PARSED();
         RG(out, ol, "pem-output-region");
         psFree(out, NULL);
     }
@@ -939,6 +963,7 @@ static int t_base64(unsigned char *in, size_t n)
     ol = cap;
     if (psBase64decode(in, (psSize_t) n, out, &ol) >= 0)
     {
+        PARSED();
         CK(ol <= cap, "base64-outlen-above-capacity");
         RG(out, ol, "base64-output-region");
     }
@@ -979,6 +1004,7 @@ static int loadkeys(const unsigned char *cert, size_t cl, const unsigned char *k
     }
     if (matrixSslLoadKeysMem(keys, cert, (int32) cl, key, (int32) kl, ca, (int32) cal, NULL) >= 0)
     {
+        PARSED();
         walk_keys(keys);
     }
     matrixSslDeleteKeys(keys);
@@ -1003,6 +1029,7 @@ static int t_loadpkcs12(unsigned char *in, size_t n)
     }
     if (matrixSslLoadPkcs12Mem(keys, in, (int32) n, (const unsigned char *) "secret", 6, NULL, 0, 0) >= 0)
     {
+        PARSED();
         walk_keys(keys);
     }
     matrixSslDeleteKeys(keys);
@@ -1095,6 +1122,11 @@ static const struct target
 static const struct target *g_t;
 static unsigned long g_ok_runs;
 
+static void print_stats(void)
+{
+    fprintf(stderr, "C09-STATS: target=%s runs=%lu parsed=%lu\n", g_target, g_runs, g_parse_ok);
+}
+
 static int select_target(const char *name)
 {
     size_t i;
@@ -1124,6 +1156,8 @@ int LLVMFuzzerInitialize(int *argc, char ***argv)
     (void) argc;
     (void) argv;
     select_target(getenv("C09_TARGET"));
+    g_verbose = getenv("C09_VERBOSE") != NULL;
+    atexit(print_stats);
     if (matrixSslOpen() < 0)
     {
         fprintf(stderr, "C09: matrixSslOpen failed\n");
@@ -1161,7 +1195,15 @@ int LLVMFuzzerTestOneInput(const uint8_t *d, size_t n)
         __asan_poison_memory_region(in, 1);
     }
 #endif
-    g_t->fn(in, n);
+    {
+        unsigned long before = g_parse_ok;
+        g_runs++;
+        g_t->fn(in, n);
+        if (g_verbose)
+        {
+            fprintf(stderr, "C09-RESULT: %s len=%lu\n", g_parse_ok != before ? "parsed" : "rejected", (unsigned long) n);
+        }
+    }
 #ifdef C09_ASAN
     if (n == 0 && !g_t->nulterm)
     {
